@@ -1,7 +1,7 @@
 (* C26 — property theorems (statements only). *)
-From Coq Require Import Reals List.
+From Coq Require Import Reals QArith List.
 From Coquelicot Require Import Coquelicot.
-From OMV Require Import Expr.Expr Expr.ExprProofs C26.Model C26.Proofs.
+From OMV Require Import Expr.Expr Expr.ExprProofs C26.Model C26.Proofs C26.ProofsSizes.
 Import ListNotations.
 
 (* A pair produced by [jac_goals] (symbolic derivative of an output formula, declared dense entry): when the
@@ -42,3 +42,55 @@ Theorem C26_dot_row_partial :
               (rho (o1 + j)%nat) (rho (o2 + j)%nat).
 Proof. exact dot_row_partial. Qed.
 Print Assumptions C26_dot_row_partial.
+
+(* ---------------------------------------------------------------------------------------------------------
+   All-size theorems (coq/C26/ProofsSizes.v): for EVERY vec_size / length / shape, every row r, EVERY column c
+   (also columns on which the output does not depend) and all real inputs, the dense value of the DECLARED
+   pattern of the model - rows/cols arithmetic and value formulas of the code - is the partial derivative of the
+   output formula.  [decl_entry] is the same symbolic dense entry the generated per-instance goals use and
+   denotes the sum of the declared values at (r, c) (C26_decl_entry_is_dense_sum). *)
+
+Theorem C26_decl_entry_is_dense_sum :
+  forall rho j r c, evalR rho (decl_entry j r c) = dense_val rho j r c.
+Proof. exact decl_entry_eval. Qed.
+Print Assumptions C26_decl_entry_is_dense_sum.
+
+Theorem C26_dotp_partials_all_sizes :
+  forall vs len rho r c, (0 < len)%nat -> (r < vs)%nat ->
+    is_derive (fun t => evalR (upd rho c t) (nth r (outs (dotp vs len)) (ECst 0%Q))) (rho c)
+              (evalR rho (decl_entry (jac (dotp vs len)) r c)).
+Proof. exact dotp_partials_all_sizes. Qed.
+Print Assumptions C26_dotp_partials_all_sizes.
+
+Theorem C26_matvec_partials_all_sizes :
+  forall vs nr nc rho r c, (0 < nr)%nat -> (0 < nc)%nat -> (r < vs * nr)%nat ->
+    is_derive (fun t => evalR (upd rho c t) (nth r (outs (matvec vs nr nc)) (ECst 0%Q))) (rho c)
+              (evalR rho (decl_entry (jac (matvec vs nr nc)) r c)).
+Proof. exact matvec_partials_all_sizes. Qed.
+Print Assumptions C26_matvec_partials_all_sizes.
+
+(* MuxComp: vs inputs of pre*post entries stacked along the axis after the first `pre`-sized block of
+   dimensions; the declared unit entries are exactly the permutation the outputs realise. *)
+Theorem C26_mux_partials_all_sizes :
+  forall vs pre post rho r c, (r < vs * (pre * post))%nat ->
+    is_derive (fun t => evalR (upd rho c t) (nth r (outs (mux vs pre post)) (ECst 0%Q))) (rho c)
+              (evalR rho (decl_entry (jac (mux vs pre post)) r c)).
+Proof. exact mux_partials_all_sizes. Qed.
+Print Assumptions C26_mux_partials_all_sizes.
+
+Theorem C26_mux_src_dst_inverse :
+  forall vs pre post r c, (r < vs * (pre * post))%nat -> (c < vs * (pre * post))%nat ->
+    (mux_src vs pre post r = c <-> mux_dst vs post (c / (pre * post)) (c mod (pre * post)) = r).
+Proof. exact mux_src_dst. Qed.
+Print Assumptions C26_mux_src_dst_inverse.
+
+(* VectorMagnitudeComp, any length: d |a| / d a_j = a_j / |a| wherever |a| > 0; the model's declared entry
+   is literally that quotient (vmag_declared_value). *)
+Theorem C26_vmag_partial :
+  forall len o rho j, (j < len)%nat ->
+    (0 < evalR rho (e_dot (evars o len) (evars o len)))%R ->
+    is_derive (fun t => evalR (upd rho (o + j) t) (ESqrt (e_dot (evars o len) (evars o len))))
+              (rho (o + j)%nat)
+              (rho (o + j)%nat / sqrt (evalR rho (e_dot (evars o len) (evars o len))))%R.
+Proof. exact vmag_partial. Qed.
+Print Assumptions C26_vmag_partial.
